@@ -185,6 +185,28 @@ def fn_ranges(lmap):
     return r
 
 
+def path_canary(name):
+    """thorough tier: in the canary copies an `assert(false)` precedes every `return`; each must FAIL (the exit is reachable).
+    Returns {"returns": n, "failed_as_expected": m, "unreachable_or_vacuous": [...]}."""
+    unit = build_unit(name)
+    text, lmap = unit.render(canary=True, path_canary=True)
+    path = os.path.join(GEN, name + "__pathcanary.rs")
+    with open(path, "w") as f:
+        f.write(text)
+    out = run_verus(path, None, (), 200)
+    lines = text.split("\n")
+    want = [i + 1 for i, ln in enumerate(lines) if "/*CANARY-PATH*/" in ln]
+    failed = set()
+    for d in out["diags"]:
+        if d.get("level") == "error" and "assertion failed" in d.get("message", ""):
+            for sp in d.get("spans", []):
+                failed.add(sp["line_start"])
+    missing = [ln for ln in want if ln not in failed]
+    return {"returns": len(want), "failed_as_expected": len(want) - len(missing),
+            "not_failed": [{"gen_line": ln, "fn": lmap[ln - 1].get("fn"), "repo_line": lmap[ln - 1].get("sline")} for ln in missing][:20],
+            "wall_s": round(out["wall"], 1)}
+
+
 def run_unit(name, canary=True, rlimit=None):
     """Returns a result dict; never raises for LostAnchor."""
     os.makedirs(GEN, exist_ok=True)
